@@ -20,7 +20,7 @@ def sh(cmd, **kw):
 
 
 def one(patch, props, base):
-    name = os.path.basename(os.path.dirname(os.path.dirname(patch))) + "/" + os.path.basename(patch)
+    name = os.path.basename(os.path.dirname(patch)) + "/" + os.path.basename(patch)
     d = tempfile.mkdtemp(prefix="nt_", dir=base)
     try:
         shutil.copytree("/repo/beyond", os.path.join(d, "beyond"))
@@ -43,7 +43,7 @@ def one(patch, props, base):
 
 
 def main():
-    src = sys.argv[1]
+    src = os.path.abspath(sys.argv[1])
     man = json.load(open("/verif/MANIFEST.json"))
     props = sys.argv[2:] or [c["property_id"] for c in man["checks"]]
     patches = sorted(glob.glob(os.path.join(src, "patch_*.diff")))
